@@ -105,6 +105,12 @@ def roundtrip_cases(ctx):
                 continue
             for n, ncat in (((4000, 40),) if ctx.quick() else ((4000, 40), (800, 3), (40000, 300))):
                 cases.append({"fn": "foreign_chunk", "n": n, "ncat": ncat, "shape816": shape, "created_by": cb, "single": True, "stream": "main"})
+    # other layouts of the same chunk: pages of more than 64 KiB with 16-bit indices, data page v2, several row groups (row counts are
+    # multiples of 8: the index runs are whole groups), a second column behind the chunk
+    for cb in (None, "parquet-mr", "parquet-mr version 1.2.8 (build abc)"):
+        for kw in ({"n": 80000, "ncat": 300}, {"n": 80000, "ncat": 300, "dpv": 2}, {"n": 8000, "ncat": 40, "rg_rows": 800, "single": False},
+                   {"n": 4000, "ncat": 2, "dpv": 2}):
+            cases.append(dict({"fn": "foreign_chunk", "shape816": True, "created_by": cb, "single": True, "stream": "main"}, **kw))
     # long NON-ASCII text reaching the footer through each API path.  Pinned estimate of ThriftObject.to_bytes: max(500000, 1000 * row groups *
     # schema elements + len(str(key_value_metadata))) BYTES for text counted in CHARACTERS: caller-given str values of custom_metadata above
     # ~166 000 characters overflow (the open finding, confirmation case kv_nonascii_big); sizes just below must pass, and so must every other
